@@ -135,6 +135,19 @@ class GrammarAI:
         par = prog.adts[PP + "Parser"]["variants"][0]["fields"]
         self.pfield = {f["name"]: i for i, f in enumerate(par)}
         self.loops = {}
+        self.contains_guarded = self.detect_contains_guard()
+
+    def detect_contains_guard(self):
+        """TokenSet::contains has the shape `(kind as _) < 128 && (self.0 & mask(kind)) != 0`?  (strict shape check: rule C01.4)"""
+        b = self.prog.body("oq3_parser::token_set::TokenSet::contains")
+        if not b:
+            return False
+        for bi, si, s_ in b.stmts_with_pos():
+            if s_["k"] == "assign" and s_["rv"]["k"] == "binop" and s_["rv"]["op"] == "Lt":
+                c = s_["rv"]["b"]
+                if c.get("k") == "const" and c.get("bits") == "128":
+                    return True
+        return False
 
     # ------------------------------------------------------------------ alphabet
     def token_alphabet(self):
@@ -531,6 +544,18 @@ class GrammarAI:
             if op == "Ge":
                 return B_T if alo >= bhi else (B_F if ahi < blo else B_U)
             return B_U
+        if a[0] in ("pos", "posold") and b[0] in ("pos", "posold") and op in ("Eq", "Ne"):
+            if a[0] == "pos" and b[0] == "pos":
+                r = a[1] == b[1]
+            elif a[0] == "posold" and b[0] == "posold":
+                return B_U
+            else:
+                other = a if a[0] == "pos" else b
+                if other[1] >= 0:
+                    r = False      # an older position is strictly smaller than the current one
+                else:
+                    return B_U
+            return (B_T if r else B_F) if op == "Eq" else (B_F if r else B_T)
         if a[0] == "pos" and b[0] == "i" and op in ("Add", "AddWithOverflow"):
             v = ("pos", a[1] + b[1])
             # overflow of a token index: bounded by the input size (< 2^31 tokens)
@@ -588,11 +613,14 @@ class GrammarAI:
         st.consumed = True
         if st.prog:
             st.prog = tuple((h, True) for h, _ in st.prog)
-        # invalidate ties
+        # invalidate ties; remembered positions are relative to the current one
         loc = st.loc
         for i, v in enumerate(loc):
-            if v is not None and self.has_tie(v):
-                loc[i] = self.untie(v)
+            if v is not None:
+                if v[0] == "pos":
+                    loc[i] = ("pos", v[1] - n)
+                elif self.has_tie(v):
+                    loc[i] = self.untie(v)
 
     def has_tie(self, v):
         t = v[0]
@@ -974,7 +1002,9 @@ class GrammarAI:
             ts, k = args[0], args[1]
             if ts[0] == "ts" and k[0] in ("k", "kd"):
                 hi = k[1] >> 128
-                if hi:
+                if hi and self.contains_guarded:
+                    self.fact("TS128", body.npath, 2)
+                elif hi:
                     self.alarm(key, "TS128", body, t["at"], f"TokenSet::contains called with a kind that may be >= 128 {self.names(hi << 128)}: `1u128 << kind` overflows", "contains")
                 else:
                     self.fact("TS128", body.npath, 1)
@@ -1229,8 +1259,11 @@ class GrammarAI:
             s2 = st.copy() if i < len(finals) - 1 else st
             if sf.consumed:
                 for j, v in enumerate(s2.loc):
-                    if v is not None and self.has_tie(v):
-                        s2.loc[j] = self.untie(v)
+                    if v is not None:
+                        if v[0] == "pos":
+                            s2.loc[j] = ("posold",) if v[1] <= 0 else TOP
+                        elif self.has_tie(v):
+                            s2.loc[j] = self.untie(v)
                 s2.consumed = True
                 if s2.prog:
                     s2.prog = tuple((h, True) for h, _ in s2.prog)
@@ -1325,8 +1358,11 @@ class GrammarAI:
             if consumed:
                 # callee consumed: our ties are stale; callee's exit window is authoritative
                 for j, v in enumerate(s2.loc):
-                    if v is not None and self.has_tie(v):
-                        s2.loc[j] = self.untie(v)
+                    if v is not None:
+                        if v[0] == "pos":
+                            s2.loc[j] = ("posold",) if v[1] <= 0 else TOP
+                        elif self.has_tie(v):
+                            s2.loc[j] = self.untie(v)
                 s2.consumed = True
                 if s2.prog:
                     s2.prog = tuple((h, True) for h, _ in s2.prog)
